@@ -9,6 +9,9 @@
 //   H id key ops              one object, ops = e<block>,d<block>,... in order      -> ok <out>,<out>,...
 //   A id key e|d mem doff soff  dst = mem[doff:doff+16], src = mem[soff:soff+16] (one backing array,
 //                             any overlap); observation = the whole memory afterwards -> ok <mem>
+//   N id key key2 ops         c := NewCipher(keybuf) with keybuf holding key; then keybuf is OVERWRITTEN IN PLACE with key2 and the
+//                             history ops runs on c, all blocks through ONE reused src array and ONE reused dst array: the
+//                             object must go on working with the original key          -> ok <out>,<out>,... <keybuf after>
 //   K id key                  NewCipher(key): ok <BlockSize()> | err                (key lengths 0..64)
 //   M id key block n          n-fold Encrypt(buf, buf) on one object              -> ok <buf>
 // Observation lines:  id ok <fields> | id err | id PANIC | id HANG
@@ -65,6 +68,25 @@ func runCase(line string) string {
 				outs = append(outs, hx.Hex(dst))
 			}
 			return "ok " + strings.Join(outs, ",")
+		case "N":
+			keyBuf := hx.UnHex(f[2])
+			c, err := sm4.NewCipher(keyBuf)
+			if err != nil {
+				return "err"
+			}
+			copy(keyBuf, hx.UnHex(f[3])) // the caller reuses its key buffer
+			src, dst := make([]byte, 16), make([]byte, 16)
+			var outs []string
+			for _, op := range strings.Split(f[4], ",") {
+				copy(src, hx.UnHex(op[1:]))
+				if op[0] == 'd' {
+					c.Decrypt(dst, src)
+				} else {
+					c.Encrypt(dst, src)
+				}
+				outs = append(outs, hx.Hex(dst))
+			}
+			return "ok " + strings.Join(outs, ",") + " " + hx.Hex(keyBuf)
 		case "A":
 			c, err := sm4.NewCipher(hx.UnHex(f[2]))
 			if err != nil {
@@ -226,6 +248,30 @@ func gen(seed uint64, tier string, o *hx.Out) {
 			prev = blk
 		}
 		emit(fmt.Sprintf("H %d %s %s", next(), hx.Hex(key), strings.Join(ops, ",")))
+	}
+	// the key buffer is overwritten after NewCipher returned (rotated, one bit flipped, zeroed); src/dst arrays reused
+	for i := 0; i < nHist; i++ {
+		key := special(r)
+		var key2 []byte
+		switch r.Intn(3) {
+		case 0:
+			key2 = make([]byte, 16)
+		case 1:
+			key2 = append([]byte{}, key...)
+			key2[r.Intn(16)] ^= 1 << uint(r.Intn(8))
+		default:
+			key2 = r.Bytes(16)
+		}
+		n := 1 + r.Intn(histLen)
+		var ops []string
+		for j := 0; j < n; j++ {
+			d := "e"
+			if r.Bool() {
+				d = "d"
+			}
+			ops = append(ops, d+hx.Hex(r.Bytes(16)))
+		}
+		emit(fmt.Sprintf("N %d %s %s %s", next(), hx.Hex(key), hx.Hex(key2), strings.Join(ops, ",")))
 	}
 	// dst == src, disjoint, partially overlapping, inside a larger memory
 	for i := 0; i < nAlias; i++ {
